@@ -457,6 +457,34 @@ class Check(Property):
                 v.append(f"C06 autoconvert: (10 degC*m).to_root_units() = {got!r}, through base units it is 283.15 kelvin * meter")
         except Exception as exc:  # noqa: BLE001
             v.append(f"C06 autoconvert: (10 degC*m).to_root_units() raised {type(exc).__name__}: {exc}")
+        # the mode is a setting of the registry that can be switched at run time: after a switch every answer is the one a registry
+        # built in that mode gives, whatever was converted before the switch
+        def answers(reg_):
+            out = []
+            for ucd, dst in (({"degree_Celsius": 1, "meter": 1}, "kelvin * meter"), ({"degree_Fahrenheit": 1, "second": -1}, "kelvin / second"),
+                             ({"degree_Celsius": 1}, "kelvin"), ({"delta_degree_Celsius": 1, "meter": 1}, "kelvin * meter")):
+                q = reg_.Quantity(10.0, reg_.UnitsContainer(ucd))
+                for name, fn in (("to", lambda q=q, dst=dst: q.to(dst).magnitude), ("to_root_units", lambda q=q: q.to_root_units().magnitude),
+                                 ("m_as", lambda q=q, dst=dst: q.m_as(dst)), ("<", lambda q=q: bool(q < q * 1 if False else q < reg_.Quantity(20.0, q.units))),
+                                 ("== dst", lambda q=q, dst=dst: bool(q == reg_.Quantity(283.15, dst)))):
+                    try:
+                        val = fn()
+                        out.append((str(sorted(ucd.items())), name, round(val, 9) if isinstance(val, float) else val))
+                    except Exception as exc:  # noqa: BLE001
+                        out.append((str(sorted(ucd.items())), name, type(exc).__name__))
+            return out
+        ref = {m: answers(regs.fresh("float", autoconvert_offset_to_baseunit=m)) for m in (False, True)}
+        for first in (True, False):
+            r = regs.fresh("float", autoconvert_offset_to_baseunit=first)
+            seq = [first, not first, first]
+            for mode in seq:
+                r.autoconvert_offset_to_baseunit = mode
+                got = answers(r)
+                for g, w in zip(got, ref[mode]):
+                    if g != w:
+                        v.append(f"C06 one registry switched through autoconvert_offset_to_baseunit = {seq[:seq.index(mode) + 1] if mode != first else seq}: "
+                                 f"10 {g[0]} {g[1]} gives {g[2]}, a registry built with autoconvert_offset_to_baseunit={mode} gives {w[2]}")
+                        break
         # the difference of two logarithmic quantities: no delta counterpart of a logarithmic unit exists
         r = regs.fresh("float")
         try:
